@@ -7,11 +7,21 @@ import (
 	"fmt"
 	"io"
 	"net"
+	"runtime"
 	"sync"
 	"time"
 
+	"bufio"
+	"context"
+
+	"github.com/emitter-io/emitter/internal/broker"
+	"github.com/emitter-io/emitter/internal/config"
 	"github.com/emitter-io/emitter/internal/network/listener"
+	"github.com/emitter-io/emitter/internal/network/mqtt"
 	"github.com/emitter-io/emitter/internal/network/websocket"
+	"github.com/emitter-io/emitter/internal/provider/logging"
+	"github.com/emitter-io/emitter/internal/security"
+	"github.com/emitter-io/emitter/internal/security/license"
 	"github.com/emitter-io/emitter/internal/zzverif/vlib"
 )
 
@@ -62,6 +72,11 @@ type wsMsg struct {
 type fakeWS struct {
 	msgs   []wsMsg
 	writes [][]byte
+	// strict mode (concurrent stress): like gorilla, one message writer at a time
+	strict   bool
+	mu       sync.Mutex
+	open     int
+	overlaps int
 }
 type wsWriter struct {
 	f   *fakeWS
@@ -70,6 +85,12 @@ type wsWriter struct {
 
 func (w *wsWriter) Write(p []byte) (int, error) { return w.buf.Write(p) }
 func (w *wsWriter) Close() error {
+	if w.f.strict {
+		runtime.Gosched() // pushing the frame to the peer takes a moment
+		w.f.mu.Lock()
+		defer w.f.mu.Unlock()
+		w.f.open--
+	}
 	w.f.writes = append(w.f.writes, append([]byte{}, w.buf.Bytes()...))
 	return nil
 }
@@ -82,12 +103,136 @@ func (f *fakeWS) NextReader() (int, io.Reader, error) {
 	f.msgs = f.msgs[1:]
 	return m.op, bytes.NewReader(m.payload), nil
 }
-func (f *fakeWS) NextWriter(messageType int) (io.WriteCloser, error) { return &wsWriter{f: f}, nil }
-func (f *fakeWS) Close() error                                       { return nil }
-func (f *fakeWS) LocalAddr() net.Addr                                { return &net.TCPAddr{} }
-func (f *fakeWS) RemoteAddr() net.Addr                               { return &net.TCPAddr{} }
-func (f *fakeWS) SetReadDeadline(t time.Time) error                  { return nil }
-func (f *fakeWS) SetWriteDeadline(t time.Time) error                 { return nil }
+func (f *fakeWS) NextWriter(messageType int) (io.WriteCloser, error) {
+	if f.strict {
+		f.mu.Lock()
+		if f.open > 0 {
+			f.overlaps++
+		}
+		f.open++
+		f.mu.Unlock()
+	}
+	return &wsWriter{f: f}, nil
+}
+func (f *fakeWS) Close() error                       { return nil }
+func (f *fakeWS) LocalAddr() net.Addr                { return &net.TCPAddr{} }
+func (f *fakeWS) RemoteAddr() net.Addr               { return &net.TCPAddr{} }
+func (f *fakeWS) SetReadDeadline(t time.Time) error  { return nil }
+func (f *fakeWS) SetWriteDeadline(t time.Time) error { return nil }
+
+// ---- a wide channel on a real broker: one publisher, many subscribers, pipelined publishes ---------
+
+type quietLog struct{}
+
+func (quietLog) Name() string                                  { return "quiet" }
+func (quietLog) Configure(config map[string]interface{}) error { return nil }
+func (quietLog) Printf(format string, v ...interface{})        {}
+
+type fanClient struct {
+	conn net.Conn
+	pkts chan mqtt.Message
+}
+
+func newFanClient(svc *broker.Service) *fanClient {
+	a, b := net.Pipe()
+	c := &fanClient{conn: a, pkts: make(chan mqtt.Message, 8192)}
+	svc.VerifAttach(b)
+	go func() {
+		rd := bufio.NewReaderSize(a, 65536)
+		for {
+			m, err := mqtt.DecodePacket(rd, 1<<20)
+			if err != nil {
+				close(c.pkts)
+				return
+			}
+			c.pkts <- m
+		}
+	}()
+	return c
+}
+
+func (c *fanClient) send(m mqtt.Message) { m.EncodeTo(c.conn) }
+func (c *fanClient) waitType(t uint8) {
+	timeout := time.After(3 * time.Second)
+	for {
+		select {
+		case m, ok := <-c.pkts:
+			if !ok || m.Type() == t {
+				return
+			}
+		case <-timeout:
+			return
+		}
+	}
+}
+
+// fanout: nSubs connections subscribe to a/; one publisher writes nMsgs PUBLISH packets back to back;
+// what every subscriber received, in order.
+func fanout(nSubs, nMsgs int) (sent [][]byte, recv [][][]byte) {
+	lic := license.NewV3()
+	c := config.NewDefault().(*config.Config)
+	c.License = lic.String()
+	c.Cluster = nil
+	svc, err := broker.NewService(context.Background(), c)
+	if err != nil {
+		panic(err)
+	}
+	logging.Logger = quietLog{}
+	defer svc.Close()
+	cipher, _ := lic.Cipher()
+	k := security.Key(make([]byte, 24))
+	k.SetSalt(77)
+	k.SetMaster(1)
+	k.SetContract(lic.Contract())
+	k.SetSignature(lic.Signature())
+	k.SetPermissions(security.AllowRead | security.AllowWrite)
+	k.SetTarget("a/")
+	key, _ := cipher.EncryptKey(k)
+	topic := []byte(key + "/a/")
+	var subs []*fanClient
+	for i := 0; i < nSubs; i++ {
+		s := newFanClient(svc)
+		s.send(&mqtt.Connect{ClientID: []byte(fmt.Sprintf("s%d", i))})
+		s.waitType(mqtt.TypeOfConnack)
+		s.send(&mqtt.Subscribe{Header: mqtt.Header{QOS: 1}, MessageID: 1, Subscriptions: []mqtt.TopicQOSTuple{{Topic: topic}}})
+		s.waitType(mqtt.TypeOfSuback)
+		subs = append(subs, s)
+	}
+	p := newFanClient(svc)
+	p.send(&mqtt.Connect{ClientID: []byte("pub")})
+	p.waitType(mqtt.TypeOfConnack)
+	var all bytes.Buffer
+	for i := 0; i < nMsgs; i++ {
+		pl := []byte(fmt.Sprintf("m%03d", i))
+		sent = append(sent, pl)
+		(&mqtt.Publish{Header: mqtt.Header{QOS: 0}, Topic: topic, Payload: pl}).EncodeTo(&all)
+	}
+	go p.conn.Write(all.Bytes())
+	for _, s := range subs {
+		var got [][]byte
+		timeout := time.After(4 * time.Second)
+	loop:
+		for len(got) < nMsgs {
+			select {
+			case m, ok := <-s.pkts:
+				if !ok {
+					break loop
+				}
+				if pb, ok := m.(*mqtt.Publish); ok {
+					got = append(got, append([]byte{}, pb.Payload...))
+				}
+			case <-timeout:
+				break loop
+			}
+		}
+		recv = append(recv, got)
+	}
+	p.conn.Close()
+	for _, s := range subs {
+		s.conn.Close()
+	}
+	return
+}
 
 // ---- helpers ------------------------------------------------------------------------------------------
 
@@ -313,5 +458,43 @@ func main() {
 		sh.Add(vlib.App("CWqStress", vlib.N(writers), vlib.N(per), vlib.Bytes(all)),
 			map[string]interface{}{"op": "write-queue stress", "writers": writers, "per": per, "rate": rate, "socket_writes": len(sock.writes)}, "write-queue/concurrent", true)
 	}
-	sh.Finish("random streams split into socket reads of 1-40 bytes; 0-3 sniffing rounds with read sizes 1-12, then post-sniffing reads; the real HTTP / prefix / any matchers; WebSocket messages (binary, text, ping, pong, close; empty payloads) read with buffers of 1-12 bytes; write/flush sequences at rates 1, 2, 3, 1000 incl. limiter refill; 6 concurrent writers x 400 packets against a busy flusher; non-trivial: non-empty stream / message list")
+	// E. concurrent senders to one WebSocket subscriber (C10): one message writer at a time, every
+	// frame whole, per-sender order
+	for i := 0; i < 3*cfg.Mult; i++ {
+		f := &fakeWS{strict: true}
+		t := websocket.VerifNewConn(f)
+		const writers, per = 6, 300
+		var wg sync.WaitGroup
+		for w := 0; w < writers; w++ {
+			wg.Add(1)
+			go func(w int) {
+				defer wg.Done()
+				for k := 0; k < per; k++ {
+					t.Write([]byte{byte(w), byte(k >> 8), byte(k), 0xEE})
+				}
+			}(w)
+		}
+		wg.Wait()
+		f.mu.Lock()
+		frames, overlaps := f.writes, f.overlaps
+		f.mu.Unlock()
+		sh.Add(vlib.App("CWsStress", vlib.N(writers), vlib.N(per), bytesList(frames), vlib.N(uint64(overlaps))),
+			map[string]interface{}{"op": "websocket write stress", "writers": writers, "per": per, "frames": len(frames), "overlaps": overlaps}, "websocket/concurrent", true)
+	}
+	// F. a wide channel on a real broker (C10): every subscriber receives one publisher's messages in
+	// sending order, each once
+	for i := 0; i < 2*cfg.Mult; i++ {
+		nSubs, nMsgs := vlib.Pick(r, 3, 12, 20), 60
+		if i == 0 {
+			nSubs = 14
+		}
+		sent, recv := fanout(nSubs, nMsgs)
+		var rt []string
+		for _, g := range recv {
+			rt = append(rt, bytesList(g))
+		}
+		sh.Add(vlib.App("CFan", bytesList(sent), vlib.List(rt)),
+			map[string]interface{}{"op": "wide channel", "subscribers": nSubs, "messages": nMsgs}, "broker/fan-out", true)
+	}
+	sh.Finish("random streams split into socket reads of 1-40 bytes; 0-3 sniffing rounds with read sizes 1-12, then post-sniffing reads; the real HTTP / prefix / any matchers; WebSocket messages (binary, text, ping, pong, close; empty payloads) read with buffers of 1-12 bytes; write/flush sequences at rates 1, 2, 3, 1000 incl. limiter refill; 6 concurrent writers x 400 packets against a busy flusher; 6 concurrent senders x 300 frames through the WebSocket transport over a one-writer-at-a-time socket; a real broker with 3-20 subscribers of one channel and a publisher writing 60 PUBLISH packets back to back; non-trivial: non-empty stream / message list")
 }
